@@ -26,7 +26,7 @@
 
    No axioms. *)
 From Coq Require Import ZArith List Bool Lia.
-From NV Require Import Gen.Opcodes Verifier.Effect Src.Syntax Src.Eval VM.ValueVM4.
+From NV Require Import Gen.Opcodes Verifier.Effect Src.Syntax Src.SyntaxDec Src.Eval VM.ValueVM4.
 Import ListNotations.
 Local Open Scope Z_scope.
 
@@ -755,3 +755,197 @@ Definition prog_in_F4 (p : program) : bool :=
 
 (* the tie's level number -> fragment (harness/ocaml/compile4) *)
 Definition prog_in_F (lv : nat) (p : program) : bool := prog_in_F4 p.
+
+(* ==== the fragment of the PROOF (Src/CompileCorrect4*.v): in_F as in Compile3.v, extended step by step ==== *)
+
+Definition f1_binop (op : binop) : bool :=
+  match op with And | Or => false | _ => true end.
+
+(* signatures of the program's functions: name, number of parameters *)
+Definition fsigs := list (ident * nat).
+
+Fixpoint fsig_lookup (f : ident) (FS : fsigs) : option nat :=
+  match FS with [] => None | (g, n) :: t => if N.eqb f g then Some n else fsig_lookup f t end.
+
+Definition is_fname (FS : fsigs) (x : ident) : bool :=
+  match fsig_lookup x FS with Some _ => true | None => false end.
+
+(* bound names must not hide a function (a let/var named like the enclosing function would also
+   switch off the tail-call marking of front/tailrec.c).  A maximal run of adjacent function items: its names are
+   pairwise different, hide nothing, and are in scope of every function of the run (whose free variables must
+   all be in scope: they are captured when the closure is made) and of the rest of the block.
+   The BODY of a nested function is not checked here but per function of the image (func_in_P). *)
+Lemma fkind_eq_dec : forall a b : fkind, {a = b} + {a <> b}.
+Proof. decide equality. Defined.
+
+Definition kf_eq_dec : forall a b : fkind * fdef, {a = b} + {a <> b}.
+Proof. decide equality; [apply fdef_eq_dec | apply fkind_eq_dec]. Defined.
+
+(* the nested function definition is one of the functions of the image *)
+Definition known (AF : list (fkind * fdef)) (k : fkind) (fd : fdef) : bool :=
+  if in_dec kf_eq_dec (k, fd) AF then true else false.
+
+Lemma known_nth : forall AF k fd, known AF k fd = true -> exists i, nth_error AF i = Some (k, fd).
+Proof. intros AF k fd H. unfold known in H. destruct (in_dec kf_eq_dec (k, fd) AF) as [Hin|]; [|discriminate]. apply In_nth_error. exact Hin. Qed.
+
+Definition run_ok (FS : fsigs) (TL : list ident) (AF : list (fkind * fdef)) (sc : list ident) (fds : list fdef) : bool :=
+  let names := map fd_name fds in
+  nodup_ids names &&
+  forallb (fun x => negb (is_fname FS x) && negb (mem_id x sc)) names &&
+  forallb (fun fd => known AF KNamed fd && forallb (fun y => mem_id y (names ++ sc)) (fvs_fd TL fd)) fds.
+
+Definition items_F_f (FS : fsigs) (TL : list ident) (AF : list (fkind * fdef)) (lv : nat) (fexpr : list ident -> expr -> bool) :=
+  fix go (sc : list ident) (pend : nat) (l : list item) {struct l} : bool :=
+  match l with
+  | [] => false                                  (* a block ends with an expression item *)
+  | IExpr e :: t => fexpr sc e && match t with [] => true | _ => go sc 0%nat t end
+  | ILet x e :: t | IVar x e :: t => negb (is_fname FS x) && fexpr sc e && go (x :: sc) 0%nat t
+  | IFunc fd :: t =>
+      match pend with
+      | O => let fds := fd :: run_funcs t in
+             Nat.leb 4 lv && run_ok FS TL AF sc fds && go (map fd_name fds ++ sc) (length (run_funcs t)) t
+      | S p => go sc p t
+      end
+  end.
+
+Fixpoint in_F (FS : fsigs) (TL : list ident) (AF : list (fkind * fdef)) (lv : nat) (sc : list ident) (e : expr) {struct e} : bool :=
+  match e with
+  | EInt z => int_lit_ok z
+  | EBool _ => true
+  | EVar x => mem_id x sc
+  | ENeg a => negb (is_lit a) && in_F FS TL AF lv sc a
+  | ENot a => negb (is_lit a) && in_F FS TL AF lv sc a
+  | EBin op a b =>
+      (f1_binop op || Nat.leb 2 lv) && negb (is_lit a && is_lit b) && shift_ok op b &&
+      in_F FS TL AF lv sc a && in_F FS TL AF lv sc b
+  | ECond c a b => negb (is_lit c) && in_F FS TL AF lv sc c && in_F FS TL AF lv sc a && in_F FS TL AF lv sc b
+  | EAssign (EVar x) r => mem_id x sc && int_shaped r && in_F FS TL AF lv sc r
+  | EBlock items => items_F_f FS TL AF lv (in_F FS TL AF lv) sc 0%nat items
+  | EWhile c b => Nat.leb 2 lv && in_F FS TL AF lv sc c && in_F FS TL AF lv sc b
+  | EDoWhile b c => Nat.leb 2 lv && in_F FS TL AF lv sc b && in_F FS TL AF lv sc c
+  | EFor i c s b =>
+      Nat.leb 2 lv && in_F FS TL AF lv sc i && in_F FS TL AF lv sc c && in_F FS TL AF lv sc s && in_F FS TL AF lv sc b
+  | EPrint a => Nat.leb 2 lv && in_F FS TL AF lv sc a
+  | ECall f args =>
+      Nat.leb 3 lv &&
+      (fix all (l : list expr) : bool :=
+         match l with [] => true | a :: t => in_F FS TL AF lv sc a && all t end) args &&
+      match f with
+      | EVar g => match fsig_lookup g FS with
+                  | Some n => Nat.eqb n (length args)      (* a top-level function, by name *)
+                  | None => Nat.leb 4 lv && mem_id g sc    (* a function value in a slot / captured *)
+                  end
+      | _ => Nat.leb 4 lv && in_F FS TL AF lv sc f            (* any expression that yields a function value *)
+      end
+  | ELambda fd => Nat.leb 4 lv && known AF KLam fd && forallb (fun y => mem_id y sc) (fvs_fd TL fd)
+  | _ => false
+  end.
+
+Definition items_F (FS : fsigs) (TL : list ident) (AF : list (fkind * fdef)) (lv : nat) (sc : list ident) (l : list item) : bool :=
+  items_F_f FS TL AF lv (in_F FS TL AF lv) sc 0%nat l.
+
+Fixpoint args_F (FS : fsigs) (TL : list ident) (AF : list (fkind * fdef)) (lv : nat) (sc : list ident) (l : list expr) : bool :=
+  match l with [] => true | a :: t => in_F FS TL AF lv sc a && args_F FS TL AF lv sc t end.
+
+(* a function of the proof's fragment, by kind: the body is checked under the parameters and — for a nested
+   function — its free variables (the names its environment vector holds); no catch clauses, no self call
+   in tail position (the present state of the proof; the tie's fragment prog_in_F4 has both) *)
+Definition body_scope (TL : list ident) (k : fkind) (fd : fdef) : list ident :=
+  param_names (fd_params fd) ++ match k with KTop => [] | _ => fvs_fd TL fd end.
+
+Definition func_in_P (FS : fsigs) (TL : list ident) (AF : list (fkind * fdef)) (lv : nat) (kf : fkind * fdef) : bool :=
+  items_F FS TL AF lv (body_scope TL (fst kf) (snd kf)) (fd_body (snd kf)) &&
+  forallb (fun x => negb (is_fname FS x)) (param_names (fd_params (snd kf))) &&
+  no_catch (snd kf) && no_self_tail_fd (snd kf).
+
+(* a program of the proof's fragment (a subset of the tie's prog_in_F4): every function of the image is in the
+   fragment, all function names are pairwise different, a nested function is not named like a top-level one and
+   captures no name that is one, the entry function exists *)
+Definition prog_sigs (p : program) : fsigs :=
+  map (fun fd => (fd_name fd, length (fd_params fd))) (p_funcs p).
+
+Definition prog_in_P (lv : nat) (p : program) : bool :=
+  forallb (func_in_P (prog_sigs p) (tnames p) (all_funcs p) lv) (all_funcs p) &&
+  forallb (fun kf => match fst kf with
+                     | KTop => true
+                     | _ => negb (is_fname (prog_sigs p) (fd_name (snd kf))) &&
+                            forallb (fun x => negb (is_fname (prog_sigs p) x)) (fvs_fd (tnames p) (snd kf))
+                     end) (all_funcs p) &&
+  nodup_ids (fnames p) &&
+  mem_id (p_main p) (tnames p).
+
+(* ---- unfolding equations ---------------------------------------------------------------- *)
+
+Definition compile_items0 (FT TL : list ident) (fc : fctx) (L : Z) (ce : cenv) (l : list item) : list rinstr :=
+  compile_items FT TL fc L ce 0%nat l.
+
+Lemma compile_items_nil : forall FT TL fc L ce, compile_items0 FT TL fc L ce [] = [].
+Proof. reflexivity. Qed.
+Lemma compile_items_expr : forall FT TL fc L ce e t, compile_items0 FT TL fc L ce (IExpr e :: t) =
+  compile_expr FT TL fc L ce e ++
+  match t with [] => [] | _ => ins BYTECODE_SLIDE 1 0 :: compile_items0 FT TL fc L ce t end.
+Proof. intros. destruct t; reflexivity. Qed.
+Lemma compile_items_let : forall FT TL fc L ce x e t, compile_items0 FT TL fc L ce (ILet x e :: t) =
+  compile_expr FT TL fc L ce e ++ compile_items0 FT TL fc (L + 1) ((x, L + 1) :: ce) t.
+Proof. reflexivity. Qed.
+Lemma compile_items_var : forall FT TL fc L ce x e t, compile_items0 FT TL fc L ce (IVar x e :: t) =
+  compile_expr FT TL fc L ce e ++ compile_items0 FT TL fc (L + 1) ((x, L + 1) :: ce) t.
+Proof. reflexivity. Qed.
+Lemma compile_block : forall FT TL fc L ce items, compile_expr FT TL fc L ce (EBlock items) =
+  compile_items0 FT TL fc L ce items ++ block_end (nbinds items).
+Proof. reflexivity. Qed.
+Lemma compile_for : forall FT TL fc L ce i c st b, compile_expr FT TL fc L ce (EFor i c st b) =
+  compile_expr FT TL fc L ce i ++ ins BYTECODE_SLIDE 1 0 ::
+  compile_expr FT TL fc L ce (EWhile c (EBlock [IExpr b; IExpr st])).
+Proof.
+  intros. unfold compile_expr. cbn [cexpr compile_items_f nbinds block_end]. unfold block_end.
+  simpl (0 <? 0). rewrite !app_nil_r. reflexivity.
+Qed.
+
+(* without a self call in tail position the tail-position compilation is the plain one *)
+Lemma nst_eq : forall FT TL fc self e L ce, nst self e = true ->
+  cexpr FT TL fc (Some self) true L ce e = cexpr FT TL fc None false L ce e.
+Proof.
+  intros FT TL fc self. fix IH 1. intros e L ce H. destruct e; try reflexivity.
+  - (* ECond *) cbn [nst] in H. apply andb_true_iff in H. destruct H as [H2 H3].
+    cbn [cexpr]. rewrite (IH e2 L ce H2), (IH e3 L ce H3). reflexivity.
+  - (* ECall *) destruct e; try reflexivity. cbn [nst] in H. cbn [cexpr].
+    unfold self_is. apply negb_true_iff in H. rewrite H. reflexivity.
+  - (* EBlock *) cbn [nst] in H. cbn [cexpr]. f_equal.
+    generalize 0%nat as pend.
+    revert L ce H. induction items as [|it t IHt]; intros L ce H pend; [reflexivity|].
+    destruct it as [x e | x e | fd | e]; cbn [compile_items_f nst_items_f] in *.
+    + f_equal. apply IHt. exact H.
+    + f_equal. apply IHt. exact H.
+    + destruct pend.
+      * cbv zeta. f_equal. f_equal. f_equal. apply IHt. exact H.
+      * f_equal. f_equal. apply IHt. exact H.
+    + destruct t as [|it2 t2].
+      * rewrite (IH e L ce H). reflexivity.
+      * f_equal. f_equal. apply IHt. exact H.
+Qed.
+
+Lemma tail_none_eq : forall FT TL fc e L ce,
+  cexpr FT TL fc None true L ce e = cexpr FT TL fc None false L ce e.
+Proof.
+  intros FT TL fc. fix IH 1. intros e L ce. destruct e; try reflexivity.
+  - cbn [cexpr]. rewrite (IH e2 L ce), (IH e3 L ce). reflexivity.
+  - cbn [cexpr]. destruct e; reflexivity.
+  - cbn [cexpr]. f_equal. generalize 0%nat as pend.
+    revert L ce. induction items as [|it t IHt]; intros L ce pend; [reflexivity|].
+    destruct it as [x e | x e | fd | e]; cbn [compile_items_f] in *.
+    + f_equal. apply IHt.
+    + f_equal. apply IHt.
+    + destruct pend.
+      * cbv zeta. f_equal. f_equal. f_equal. apply IHt.
+      * f_equal. f_equal. apply IHt.
+    + destruct t as [|it2 t2].
+      * rewrite (IH e L ce). reflexivity.
+      * f_equal. f_equal. apply IHt.
+Qed.
+
+Lemma no_self_tail_body : forall FT TL k fd, no_self_tail_fd fd = true ->
+  compile_body FT TL k fd = compile_expr FT TL (ctx_of TL k fd) 0 (param_env (fd_params fd) 0) (EBlock (fd_body fd)).
+Proof.
+  intros FT TL k fd H. unfold compile_body, compile_expr. destruct k; cbn [tail_self]; [apply nst_eq; exact H | apply nst_eq; exact H | apply tail_none_eq].
+Qed.
